@@ -51,6 +51,7 @@ class StubSim(DynamicOrderSimulation):
         # corridor and maze simulations do); equal as values, different as objects (`flag is True` is False)
         self.np_flags = bool(script.get("npFlags", False))
         self.unit = int(script.get("unit", 1))
+        self.roster_in_place = bool(script.get("rosterInPlace", False))
         # ids are deliberately NOT in lexicographic order (nor of equal length): code that sorts ids, iterates a
         # set of them or compares them as strings then differs visibly from code that keeps the listing order
         self.ids = [agent_id(i) for i in range(self.n)]
@@ -92,7 +93,14 @@ class StubSim(DynamicOrderSimulation):
 
     def _set_next(self):
         nom = self.noms[self.t] if self.t < len(self.noms) else list(range(self.n))
-        self.next_agent = [self.ids[i] for i in nom]
+        ids = [self.ids[i] for i in nom]
+        if self.roster_in_place and getattr(self, "_roster", None) is not None:
+            # the roster handed to `next_agent` once (at reset) is a list the simulation keeps and EDITS IN PLACE:
+            # the manager asks `sim.next_agent` at every step and sees the live container
+            self._roster[:] = ids
+        else:
+            self._roster = ids
+            self.next_agent = self._roster
 
     def reset(self, **kwargs):
         self.ep = 1 if self.flat_ep else self.ep + 1
@@ -100,6 +108,7 @@ class StubSim(DynamicOrderSimulation):
         self.reads = [0] * self.n
         self.pend = [0] * self.n
         self.accrued_snapshot = list(self.pend)
+        self._roster = None
         self._set_next()
 
     def step(self, action_dict, **kwargs):
